@@ -286,3 +286,33 @@ def corpus(job):
             out["evaluations"] += 1
             collect(out, job, run, None, (fi, k), nontriv_fn)
     return out
+
+
+def suite_under_monitors(job):
+    """run the repository's own tests with the state-independent monitors installed (pytest plugin)"""
+    import os
+    import subprocess
+    import sys
+    out = dict(evaluations=0, nontrivial=set(), violations=[], samples=[], counters={}, sets={})
+    env.ensure_dirs()
+    res = os.path.join(env.WORK, "plugin_%d.json" % os.getpid())
+    e = dict(os.environ, PYTHONPATH=env.VERIF + os.pathsep + env.REPO, OVF_PLUGIN_OUT=res, PYTHONDONTWRITEBYTECODE="1")
+    p = subprocess.run([sys.executable, "-B", "-m", "pytest", "-q", "-p", "no:cacheprovider", "-p", "ovf.pytest_plugin", "--timeout=900",
+                        "orquesta/tests/unit/conducting", "orquesta/tests/unit/specs", "orquesta/tests/unit/expressions"],
+                       cwd=env.REPO, env=e, stdout=subprocess.PIPE, stderr=subprocess.STDOUT, timeout=1800)
+    if not os.path.exists(res):
+        raise RuntimeError("pytest plugin wrote no result: %s" % p.stdout.decode(errors="replace")[-600:])
+    with open(res) as f:
+        st = json.load(f)
+    os.remove(res)
+    C = out["counters"]
+    C["suite_api_calls_monitored"] = st["api_calls"]
+    C["suite_state_pairs_compared"] = st["pairs"]
+    C["suite_purity_checks"] = st["purity_checks"]
+    C["suite_exitstatus"] = st.get("exitstatus", -1)
+    out["evaluations"] = 1
+    out["nontrivial"].add("suite-under-monitors")
+    for v in st["violations"]:
+        if v["prop"] == job["prop"]:
+            out["violations"].append(dict(v, subject="suite", cause=None, workload="suite-under-monitors", job=dict(job)))
+    return out
